@@ -13,6 +13,7 @@ use ::whirlpool::state::{AdaptiveFeeConstants, AdaptiveFeeInfo, AdaptiveFeeVaria
 pub fn register(v: &mut Vec<Box<dyn Family>>) {
     v.push(Box::new(Afm));
     v.push(Box::new(TFeeFam));
+    v.push(Box::new(REmis));
 }
 
 fn anchor_err_name(e: anchor_lang::error::Error) -> String {
@@ -307,5 +308,110 @@ impl Family for TFeeFam {
             Ok((v, f)) => format!("ok {} {}", v, f),
             Err(e) => format!("err {}", e),
         }
+    }
+}
+
+
+// ------------------------------------------------------------------------------------------------
+// C11: changing one reward's emission rate on an arbitrary reward state
+//   remis liq lastTs now idx newEmissions (init emissions growth)x3
+// = next_whirlpool_reward_infos(now) then Whirlpool::update_emissions(idx, ..): every initialized reward is
+// settled at its OLD rate up to `now`, then only reward idx gets the new rate.
+// Oracle: exact settlement of each reward (dt * emissions / liquidity, 0 on u128 overflow, wrapping growth).
+// ------------------------------------------------------------------------------------------------
+pub struct REmis;
+impl Family for REmis {
+    fn name(&self) -> &'static str {
+        "remis"
+    }
+    fn gen(&self, r: &mut Rng, _idx: u64) -> String {
+        let liq = if r.chance(1, 8) { 0 } else { r.liquidity() };
+        let last = 1_000 + r.below(1 << 32);
+        let now = match r.below(8) {
+            0 => last,
+            1 => last.saturating_sub(1 + r.below(100)),
+            _ => last + r.pick(&[1u64, 10, 3600, 86400, 1 << 31]),
+        };
+        let idx = r.pick(&[0u64, 1, 2, 2, 3]);
+        let new_e = r.log_u128(110);
+        let mut s = format!("remis {} {} {} {} {}", liq, last, now, idx, new_e);
+        // rewards are initialized from the lowest index up
+        let ninit = r.below(4);
+        for i in 0..3u64 {
+            let init = i < ninit;
+            let e = if !init || r.chance(1, 4) { 0 } else { r.log_u128(110) };
+            let g = if init { if r.chance(1, 3) { u128::MAX - r.below(1 << 40) as u128 } else { r.log_u128(128) } } else { 0 };
+            s += &format!(" {} {} {}", b(init), e, g);
+        }
+        s
+    }
+    fn run(&self, line: &str, ctx: &mut Ctx) -> String {
+        use ::whirlpool::manager::whirlpool_manager::next_whirlpool_reward_infos;
+        use ::whirlpool::state::Whirlpool;
+        let t = toks(line);
+        let liq = p128(t[1]);
+        let (last, now) = (p64(t[2]), p64(t[3]));
+        let idx: usize = t[4].parse().unwrap();
+        let new_e = p128(t[5]);
+        let mut w = Whirlpool { liquidity: liq, reward_last_updated_timestamp: last, tick_spacing: 64, sqrt_price: 1u128 << 64, ..Default::default() };
+        let mut old = [(false, 0u128, 0u128); 3];
+        for i in 0..3 {
+            let init = pb(t[6 + 3 * i]);
+            let (e, g) = (p128(t[7 + 3 * i]), p128(t[8 + 3 * i]));
+            old[i] = (init, e, g);
+            if init {
+                w.reward_infos[i].mint = anchor_lang::prelude::Pubkey::new_from_array([7 + i as u8; 32]);
+                w.reward_infos[i].vault = anchor_lang::prelude::Pubkey::new_from_array([17 + i as u8; 32]);
+            }
+            w.reward_infos[i].emissions_per_second_x64 = e;
+            w.reward_infos[i].growth_global_x64 = g;
+        }
+        let next = match next_whirlpool_reward_infos(&w, now) {
+            Ok(n) => n,
+            Err(e) => {
+                ctx.tag("err");
+                return format!("err {:?}", e);
+            }
+        };
+        if let Err(e) = w.update_emissions(idx, next, now, new_e) {
+            ctx.tag("err");
+            return format!("err {}", anchor_err_name(e));
+        }
+        // oracle: exact settlement at the OLD rates, new rate only at idx, timestamp moved
+        let dt = (now - last) as u128;
+        for i in 0..3 {
+            let (init, e, g) = old[i];
+            let want_g = if init && liq > 0 && dt > 0 {
+                let prod = num_bigint::BigUint::from(dt) * num_bigint::BigUint::from(e);
+                let delta = if prod > num_bigint::BigUint::from(u128::MAX) { 0u128 } else { (prod / num_bigint::BigUint::from(liq)).try_into().unwrap_or(0u128) };
+                g.wrapping_add(delta)
+            } else {
+                g
+            };
+            let want_e = if i == idx { new_e } else { e };
+            if { w.reward_infos[i].growth_global_x64 } != want_g {
+                ctx.viol(format!("C11 changing the emission rate of reward {}: reward {} is settled to growth {} but accrual at its old rate over {} s gives {}", idx, i, { w.reward_infos[i].growth_global_x64 }, dt, want_g));
+            }
+            if { w.reward_infos[i].emissions_per_second_x64 } != want_e {
+                ctx.viol(format!("C11 changing the emission rate of reward {}: reward {} now has rate {} (expected {})", idx, i, { w.reward_infos[i].emissions_per_second_x64 }, want_e));
+            }
+        }
+        if w.reward_last_updated_timestamp != now {
+            ctx.viol("C11 set emissions did not move the reward timestamp".to_string());
+        }
+        ctx.tag("ok");
+        if dt > 0 && liq > 0 {
+            ctx.nontrivial(line);
+        }
+        format!(
+            "ok {} {} {} {} {} {} {}",
+            w.reward_last_updated_timestamp,
+            { w.reward_infos[0].emissions_per_second_x64 },
+            { w.reward_infos[0].growth_global_x64 },
+            { w.reward_infos[1].emissions_per_second_x64 },
+            { w.reward_infos[1].growth_global_x64 },
+            { w.reward_infos[2].emissions_per_second_x64 },
+            { w.reward_infos[2].growth_global_x64 }
+        )
     }
 }
